@@ -29,6 +29,13 @@ type c02path struct {
 	// SlowConnack: the write of the subscribers' CONNACK returns 1 s after the bytes reached the client (the client
 	// subscribes as soon as it has read them)
 	SlowConnack bool `json:"connack_write_returns_late,omitempty"`
+	// Dev: exactly one answer of the environment comes late (see Deviation): the k-th write of the broker to a client, or
+	// the k-th log append, returns 1.5 s after taking effect
+	Dev *Deviation `json:"one_late_answer,omitempty"`
+	// Retained: every publish carries the retain flag; EmptyAt (>= 0): that publish of the sequence has an empty payload
+	// (it clears the retained message: connected subscribers are still owed the publish itself)
+	Retained bool `json:"retain_flag,omitempty"`
+	EmptyAt  int  `json:"empty_payload_at,omitempty"`
 }
 
 func c02paths() []c02path {
@@ -66,7 +73,7 @@ func c02paths() []c02path {
 		}
 		for _, d := range depths {
 			for _, s := range seqs(d) {
-				out = append(out, c02path{v.p, v.s, s, 4, -1, false, false, false})
+				out = append(out, c02path{v.p, v.s, s, 4, -1, false, false, false, nil, false, 0})
 			}
 		}
 	}
@@ -76,7 +83,7 @@ func c02paths() []c02path {
 		for _, s := range seqs(d) {
 			for k := 0; k < d; k++ {
 				if s[k]%3 != 0 { // QoS 0 is never acknowledged
-					out = append(out, c02path{10, 9, s, 4, k, false, false, false})
+					out = append(out, c02path{10, 9, s, 4, k, false, false, false, nil, false, 0})
 				}
 			}
 		}
@@ -96,11 +103,29 @@ func c02paths() []c02path {
 			out = append(out, c02path{Prefill: 10, State: 9, Seq: s, Size: 4, FailAt: -1, SlowConnack: true})
 		}
 	}
+	for _, d := range []int{1, 2} {
+		for _, s := range seqs(d) {
+			out = append(out, c02path{Prefill: 10, State: 9, Seq: s, Size: 4, FailAt: -1, Retained: true, EmptyAt: -1})
+			for k := 0; k < d; k++ {
+				out = append(out, c02path{Prefill: 10, State: 9, Seq: s, Size: 4, FailAt: -1, Retained: true, EmptyAt: k})
+			}
+		}
+	}
+	// one late answer: every depth-2 sequence x every broker-to-client write (the first 30: connection set-up of the
+	// clients, then the deliveries and acknowledgements) and every log append of the run
+	for _, s := range seqs(2) {
+		for k := 1; k <= 30; k++ {
+			out = append(out, c02path{Prefill: 10, State: 9, Seq: s, Size: 4, FailAt: -1, Dev: &Deviation{"client-write", k, 1500 * time.Millisecond}})
+		}
+		for k := 1; k <= 3; k++ {
+			out = append(out, c02path{Prefill: 10, State: 9, Seq: s, Size: 4, FailAt: -1, Dev: &Deviation{"log-append", k, 1500 * time.Millisecond}})
+		}
+	}
 	// payload sizes at the remaining-length edges of the encoder, depth <= 2
 	for _, size := range []int{1, 127, 128, 16383, 16384} {
 		for _, d := range []int{1, 2} {
 			for _, s := range seqs(d) {
-				out = append(out, c02path{0, -1, s, size, -1, false, false, false}, c02path{10, 9, s, size, -1, false, false, false})
+				out = append(out, c02path{0, -1, s, size, -1, false, false, false, nil, false, 0}, c02path{10, 9, s, size, -1, false, false, false, nil, false, 0})
 			}
 		}
 	}
@@ -114,9 +139,9 @@ func c02paths() []c02path {
 			}
 		}
 		if vk.Thorough() || p%7 == 0 || edge {
-			out = append(out, c02path{p, int64(p - 1), []int{1, 1, 1}, 4, -1, false, false, false})
+			out = append(out, c02path{p, int64(p - 1), []int{1, 1, 1}, 4, -1, false, false, false, nil, false, 0})
 			if vk.Thorough() && p%10 == 0 {
-				out = append(out, c02path{p, -1, []int{1, 1, 1}, 4, -1, false, false, false})
+				out = append(out, c02path{p, -1, []int{1, 1, 1}, 4, -1, false, false, false, nil, false, 0})
 			}
 		}
 	}
@@ -135,6 +160,7 @@ func TestC02Delivery(t *testing.T) {
 				}
 				w := NewWorld(t, nodes, NodeOpts{Prefill: p.Prefill, PrefillState: p.State})
 				defer w.Close()
+				w.SetDeviation(p.Dev)
 				w.Idle(time.Second) // let the consumer work through a pre-filled log
 				// a subscription whose session is not connected (created through the RPC API) sits first in the filter's list
 				w.Node(1).DState.Subscriptions().CreateFrom("ghost", 1, []byte("_default/t/#"), 1)
@@ -170,6 +196,21 @@ func TestC02Delivery(t *testing.T) {
 					c.Subscribe(3, 0, "t/#")
 					subs = append(subs, c)
 				}
+				// a subscriber that has QoS 2 publishes of its own under way (PUBREC received, PUBREL not sent yet) under the
+				// identifiers the broker is about to use for its deliveries: the two directions number independently
+				{
+					c := w.NewClient("sub-busy", 1, AckNone)
+					if c.Connect(ConnectOpts{ClientID: c.Name, KeepAlive: 60}) != 0 {
+						rep.HarnessError("subscriber could not connect")
+						return
+					}
+					c.Subscribe(1, 1, "t/#")
+					w.Step()
+					for id := int32(1); id <= 8; id++ {
+						c.Send(&packet.Publish{Header: &packet.Header{Qos: 2}, Topic: []byte("elsewhere/x"), Payload: []byte("own"), MessageId: id})
+					}
+					subs = append(subs, c)
+				}
 				pubs := []*Client{}
 				policy := AckAll
 				if p.LateRelease || p.ReleaseAtEnd {
@@ -202,7 +243,10 @@ func TestC02Delivery(t *testing.T) {
 					if k == p.FailAt {
 						w.FailLog(1, true)
 					}
-					pubc.Publish(s.topic, s.payload, q, false, s.mid)
+					if p.Retained && p.EmptyAt == k {
+						s.payload = ""
+					}
+					pubc.Publish(s.topic, s.payload, q, p.Retained, s.mid)
 					all = append(all, s)
 					w.Step()
 					if k == p.FailAt {
@@ -278,6 +322,13 @@ func TestC02Delivery(t *testing.T) {
 				for _, ai := range w.Node(1).AckInserts {
 					if strings.Contains(ai.Err, "duplicate") {
 						rep.Violate(vk.Violation{Sig: "c02-duplicate-identifier-in-flight", Msg: fmt.Sprintf("in-flight registration rejected as duplicate: session %s id %d", ai.Session, ai.ID), Replay: p})
+					}
+				}
+				if p.Dev != nil {
+					if w.DeviationFired() {
+						rep.Extra["runs_with_one_late_answer"] = asInt(rep.Extra["runs_with_one_late_answer"]) + 1
+					} else {
+						rep.Extra["late_answer_index_beyond_the_run"] = asInt(rep.Extra["late_answer_index_beyond_the_run"]) + 1
 					}
 				}
 				if acked > 0 {
